@@ -44,6 +44,7 @@ EXPLANATION = (
     " (PROGRESS) by abstract interpretation of sylt-parser (cursor position relative to the loop head: same / further / strictly further; what is known about the token under the cursor; summaries per parsing function as a greatest fixed point): every loop driven by a token cursor advances it strictly on every path back to its head - at the latest after two more iterations, which is how the error-recovery loops of module() and block() work - and is left when the cursor is at the end of the input; callbacks handed to the generic list parser never move the cursor backwards."
     " (CURSOR-TOTAL) the cursor is not bounded by the number of tokens, so tokens/spans are read through total accessors only; (RE-CHECK) no function of the checker, the resolver, the lowering or the dependency fold visits a node and one of its parts twice on one path - the 2^depth blow-up of blocks ending in blocks; (VISIT-ONCE) the loader marks a file visited before anything can skip past the mark, so import cycles end; recursion that hands the cursor on unchanged is discharged structurally (descent into a part of the function's own parameter) or by the item-callback obligation."
     ' (CENSUS unwraps-reviewed) every unwrap / expect outside the phase contracts is in a reviewed table keyed by function and expression shape, with the reason why it cannot fail.'
+    ' (GUARD marks-before-recursing) a guarded walk enters the node into its visited set before it recurses into the components.'
 )
 UNDECIDED = ("absence of panics at the unreviewed census sites, arithmetic overflow, native stack depth on deeply nested input, "
              "loops of the parser that are not driven by a cursor and "
